@@ -356,9 +356,12 @@ fn one_directed(ll: &[u8], rle_style: u32, hlit: usize, hdist: usize, hclen_extr
 fn exotic_alphabet_stream(r: &mut Rng, hlit: usize, hdist: usize) -> Vec<u8> {
     let a = b'a' + r.below(20) as u8;
     let mut ll = vec![0u8; hlit];
-    ll[a as usize] = 1;
-    ll[256] = 2;
-    ll[hlit - 1] = 2;
+    // which of the three coded symbols gets the 1-bit code (if it is the out-of-range one, every other code
+    // depends on it being counted)
+    let short = r.below(3);
+    ll[a as usize] = if short == 0 { 1 } else { 2 };
+    ll[256] = if short == 1 { 1 } else { 2 };
+    ll[hlit - 1] = if short == 2 { 1 } else { 2 };
     let mut dl = vec![0u8; hdist];
     dl[0] = 1;
     dl[hdist - 1] = 1;
@@ -399,9 +402,9 @@ fn exotic_alphabet_stream(r: &mut Rng, hlit: usize, hdist: usize) -> Vec<u8> {
     let llc = gen::canon_codes(&ll);
     let n = 1 + r.usize_below(12);
     for _ in 0..n {
-        w.put_code(llc[a as usize], 1);
+        w.put_code(llc[a as usize], ll[a as usize] as u32);
     }
-    w.put_code(llc[256], 2);
+    w.put_code(llc[256], ll[256] as u32);
     w.pad(r.below(256) as u32);
     w.out
 }
